@@ -24,6 +24,7 @@
 import PercevalModel.Lemmas.C06
 import PercevalModel.Lemmas.C06Fresh
 import PercevalModel.Lemmas.C06Trim
+import PercevalModel.Model.C06Proc
 
 namespace PM.C06
 
@@ -297,6 +298,84 @@ theorem from_noise_model_fields (brightness g2 q ind r transmittance : ℚ) (g2d
     P.beta = brightness ∧ P.g2 = g2 ∧ P.ind = ind ∧ P.eta = transmittance ∧ P.dm = g2dist := by
   simp [ofNoise]
 
+/-! ### the long-lived `Processor`: history-independence of `source_distribution` -/
+
+/-- Every step of the processor (in-place update of any `NoiseModel` object, assignment of any object —
+the one already held included —, new input, reading the distribution, direct use of the source, unrelated
+operations) preserves the invariant: the source is built from the current values of the held noise
+object unless that object was updated in place and not yet re-assigned, and a cached input distribution
+was generated by the current source for the current input. -/
+theorem proc_step_inv (s : Proc) (op : ProcOp) (h : s.Inv) : (procStep s op).1.Inv := by
+  obtain ⟨hs, hc⟩ := h
+  cases op with
+  | mutate id v =>
+    refine ⟨fun hd => ?_, hc⟩
+    simp only [procStep, Bool.or_eq_false_iff, decide_eq_false_iff_not] at hd ⊢
+    rw [if_neg (fun e => hd.2 e.symm)]
+    exact hs hd.1
+  | assign id => exact ⟨fun _ => rfl, fun d hd => by simp [procStep] at hd⟩
+  | input ns =>
+    refine ⟨hs, fun d hd => ⟨ns, s.tag, rfl, ?_⟩⟩
+    simp only [procStep, Proc.fill, Option.some.injEq] at hd
+    exact hd.symm
+  | read =>
+    unfold procStep
+    cases hca : s.cache with
+    | some d => exact ⟨hs, hc⟩
+    | none =>
+      cases hin : s.input with
+      | none => exact ⟨hs, hc⟩
+      | some ns =>
+        refine ⟨hs, fun d hd => ⟨ns, s.tag, hin, ?_⟩⟩
+        simp only [Proc.fill, Option.some.injEq] at hd
+        exact hd.symm
+  | useSource ns thr => exact ⟨hs, hc⟩
+  | other => exact ⟨hs, hc⟩
+
+/-- … hence the invariant holds after EVERY history of a processor constructed with any noise object. -/
+theorem proc_inv_all_histories (heap : ℕ → NoiseVal) (ref : ℕ) (ops : List ProcOp) :
+    (procAfter heap ref ops).Inv :=
+  SM.inv_exec procStep Proc.Inv proc_step_inv _
+    ⟨fun _ => rfl, fun d hd => by simp [Proc.init] at hd⟩ ops
+
+/-- History-independence: after ANY history (any interleaving of in-place updates, assignments of new,
+equal or the very same `NoiseModel` object, input changes, reads that fill the cache, direct uses of the
+source), provided the last in-place update of the held object has been followed by an assignment,
+`Processor.source_distribution` is the mixture `Source.generate_distribution` builds from
+`Source.from_noise_model` of the CURRENT values of the held noise object for the CURRENT input — for some
+value `t` of the tag counter, which only names the fresh tags (every theorem above holds for all `t`). -/
+theorem proc_source_distribution_current (heap : ℕ → NoiseVal) (ref : ℕ) (ops : List ProcOp)
+    (hd : (procAfter heap ref ops).dirty = false) {ns : List ℕ}
+    (hin : (procAfter heap ref ops).input = some ns) :
+    ∃ t, (procAfter heap ref ops).sourceDistribution =
+      some (generate ((procAfter heap ref ops).heap (procAfter heap ref ops).ref).params 0 ns t) := by
+  obtain ⟨hs, hc⟩ := proc_inv_all_histories heap ref ops
+  generalize procAfter heap ref ops = s at *
+  unfold Proc.sourceDistribution procStep
+  cases hca : s.cache with
+  | some d =>
+    obtain ⟨ns', t, h1, h2⟩ := hc d hca
+    rw [hin, Option.some.injEq] at h1
+    exact ⟨t, by simp only [h2, h1, hs hd]⟩
+  | none =>
+    simp only [hin]
+    exact ⟨s.tag, by rw [hs hd]⟩
+
+/-- The same for the source object itself: `processor.source` is `from_noise_model` of the current
+values of the held noise object, so any direct request to it follows the current parameters. -/
+theorem proc_source_current (heap : ℕ → NoiseVal) (ref : ℕ) (ops : List ProcOp)
+    (hd : (procAfter heap ref ops).dirty = false) (ns : List ℕ) (thr : ℚ) :
+    ∃ t, (procStep (procAfter heap ref ops) (.useSource ns thr)).2 =
+      some (generate ((procAfter heap ref ops).heap (procAfter heap ref ops).ref).params thr ns t) := by
+  obtain ⟨hs, _⟩ := proc_inv_all_histories heap ref ops
+  exact ⟨(procAfter heap ref ops).tag, by simp only [procStep, hs hd]⟩
+
+/-- An assignment always ends the "updated in place" state, whatever object is assigned. -/
+theorem proc_assign_clean (heap : ℕ → NoiseVal) (ref : ℕ) (ops : List ProcOp) (id : ℕ) :
+    (procAfter heap ref (ops ++ [.assign id])).dirty = false ∧
+    (procAfter heap ref (ops ++ [.assign id])).ref = id := by
+  simp [procAfter, SM.exec_append, SM.exec_cons, SM.exec_nil, procStep]
+
 /-! ### non-vacuity -/
 
 /-- every imperfection switched on, "distinguishable" model -/
@@ -340,5 +419,21 @@ example : physPerf exP 2 1 ≠ 0 ∧ (1 : ℕ) ≠ 0 := by
 -- hypothesis of `generate_normalised`: at the default threshold the raw mass is not 0
 example : mass (generateRaw exPerfect (max 0 minP) [1] 0) ≠ 0 := by
   norm_num [generateRaw, modeDists, probDist, shortcut, isPerfect, exPerfect, ltpState, lift, mass]
+
+-- hypotheses of `proc_source_distribution_current` / `proc_source_current`: a history with an in-place
+-- update of the held object followed by its re-assignment ends clean, with an input, and with values
+-- that differ from the ones the processor was constructed with
+def exNoise (b : ℚ) : NoiseVal :=
+  { brightness := b, g2 := 0, q := 1, ind := 1, r := 1, transmittance := 1, g2dist := true }
+def exHist : List ProcOp := [.input [1, 1], .read, .mutate 0 (exNoise (1 / 2)), .assign 0]
+example : (procAfter (fun _ => exNoise 1) 0 exHist).dirty = false ∧
+    (procAfter (fun _ => exNoise 1) 0 exHist).input = some [1, 1] ∧
+    ((procAfter (fun _ => exNoise 1) 0 exHist).heap 0).brightness = 1 / 2 := by
+  simp [procAfter, exHist, SM.exec_cons, SM.exec_nil, procStep, Proc.fill, Proc.init, exNoise]
+-- the hypothesis `dirty = false` is needed: between the in-place update and the re-assignment the source
+-- of the code as it is still has the old values
+example : (procAfter (fun _ => exNoise 1) 0 [.mutate 0 (exNoise (1 / 2))]).src.beta = 1 ∧
+    ((procAfter (fun _ => exNoise 1) 0 [.mutate 0 (exNoise (1 / 2))]).heap 0).params.beta = 1 / 2 := by
+  simp [procAfter, SM.exec_cons, SM.exec_nil, procStep, Proc.init, exNoise, NoiseVal.params, ofNoise]
 
 end PM.C06
